@@ -128,7 +128,11 @@ class C05(Prop):
         hist = st.tuples(st.sampled_from(["i", "j", "a"]), st.sampled_from(["i", "j", "b"]), st.sampled_from([0, 1, 7, 40, 130, 150, 260, 400]),
                          st.sampled_from(["eager-with-free-reals", "lazy"]), st.integers(0, 7)).map(
             lambda t: {"history": {"inner": t[0], "outer": t[1], "between": t[2], "style": t[3], "salt": t[4]}, "ast": ("num", 0.0, "real"), "mode": "eager"})
-        return st.one_of(main, main, main, main, main, main, main, main, main, main, main, hist)
+        # terms made by funsor.factory.make_funsor: two bound names and a fresh one that may re-use a bound name or collide
+        # with a free input, built lazily (the argument depends on a free real variable) or under reflect
+        fac = st.tuples(st.sampled_from(["a", "b"]), st.sampled_from(["ab", "a", "b", "c"]), st.sampled_from(["lazy-arg", "reflect", "lazy"]), st.integers(0, 5), st.booleans()).map(
+            lambda t: {"factory": {"swap": t[0] == "b", "fresh": t[1], "style": t[2], "salt": t[3], "extra_input": t[4]}, "ast": ("num", 0.0, "real"), "mode": "eager"})
+        return st.one_of(main, main, main, main, main, main, main, main, main, main, main, hist, fac)
 
     # open known finding: lazily built Approximate leaks mangled names
     known_predicates = {
@@ -143,14 +147,20 @@ class C05(Prop):
     def describe(self, case):
         if "history" in case:
             return f"[history] {case['history']}"
+        if "factory" in case:
+            return f"[factory] {case['factory']}"
         return f"[{case['mode']}] {show(case['ast'])}"
 
     def signature(self, case):
         if "history" in case:
             return "history|" + case["history"]["style"]
+        if "factory" in case:
+            return "factory|" + case["factory"]["style"]
         return ast_signature(case["ast"])
 
     def shrink_candidates(self, case):
+        if "factory" in case:
+            return
         if "history" in case:
             h = case["history"]
             for n in (0, 1, 7, 40, 130, 150, 260):
@@ -222,6 +232,72 @@ class C05(Prop):
         if n >= 130:
             stt.mark_nontrivial(case_hash(h))
 
+    _factory = {}
+
+    def check_factory(self, f, stt):
+        from collections import OrderedDict
+
+        import funsor.interpretations as I
+        from funsor import Bint, Number, Real, Tensor, Variable
+        from funsor.factory import Bound, Fresh, make_funsor
+        from funsor.interpreter import reinterpret
+        from funsor.terms import Funsor, to_funsor
+
+        stt.count("factory:" + f["style"])
+        if "Flatten21" not in self._factory:
+            @make_funsor
+            def Flatten21(x: Funsor, i: Bound, j: Bound, ij: Fresh[lambda i, j: Bint[i.size * j.size]]) -> Fresh[lambda x: x]:  # noqa: F821
+                if not isinstance(x, Tensor):
+                    return None  # stays a lazy term until its argument is a Tensor
+                m = to_funsor(i, x.inputs.get(i, None)).output.size
+                n = to_funsor(j, x.inputs.get(j, None)).output.size
+                ij = x.materialize(to_funsor(ij, Bint[m * n]))
+                return x(**{i.name: ij // Number(n, n + 1), j.name: ij % Number(n, n + 1)})
+
+            self._factory["Flatten21"] = Flatten21
+        Flatten21 = self._factory["Flatten21"]
+        i, j = ("b", "a") if f["swap"] else ("a", "b")
+        sizes = {"a": 3, "b": 2, "c": 2}
+        ins = OrderedDict([("a", Bint[3]), ("b", Bint[2])] + ([("c", Bint[2])] if f["extra_input"] else []))
+        shape = tuple(d.size for d in ins.values())
+        data = (np.arange(int(np.prod(shape)), dtype=float).reshape(shape) * 0.5 + f["salt"])
+        t = Tensor(data, ins)
+        fresh = f["fresh"]
+        if fresh == "c" and f["extra_input"]:
+            raise Decline("fresh name collides with a free input (not a binder question)")
+        # reference: flatten (i, j) row-major into `fresh`
+        axes = list(ins)
+        moved = np.moveaxis(data, [axes.index(i), axes.index(j)], [0, 1])
+        want = moved.reshape((sizes[i] * sizes[j],) + moved.shape[2:])
+        want_inputs = {fresh: sizes[i] * sizes[j]}
+        if f["extra_input"]:
+            want_inputs["c"] = 2
+        label = f"Flatten21(x[{','.join(ins)}], {i!r}, {j!r}, {fresh!r}) [{f['style']}]"
+        try:
+            if f["style"] == "lazy-arg":
+                term = Flatten21(t + Variable("x", Real), i, j, fresh)
+                want_declared = dict(want_inputs, x="real")
+            else:
+                with getattr(I, f["style"]):
+                    term = Flatten21(t, i, j, fresh)
+                want_declared = dict(want_inputs)
+        except Exception as e:
+            raise Decline("factory-construction-raised:" + innermost_funsor_frame(e))
+        got_declared = {k: ("real" if d.dtype == "real" else d.size) for k, d in term.inputs.items()}
+        if got_declared != want_declared:
+            raise Violation("factory:inputs", f"{label} declares inputs {got_declared}, expected {want_declared}")
+        try:
+            r = term(x=0.0) if f["style"] == "lazy-arg" else reinterpret(term)
+        except Exception as e:
+            raise Decline("factory-evaluation-raised:" + innermost_funsor_frame(e))
+        if not isinstance(r, Tensor) or {k: d.size for k, d in r.inputs.items()} != want_inputs:
+            raise Violation("factory:result-inputs", f"evaluated inputs {dict(getattr(r, 'inputs', {}))}, expected {want_inputs}: Flatten21(.., {i!r}, {j!r}, {fresh!r}) [{f['style']}]")
+        got = r.align(tuple([fresh] + (["c"] if f["extra_input"] else []))).data
+        if not close(got, want):
+            raise Violation("factory:value", f"Flatten21(.., {i!r}, {j!r}, {fresh!r}) [{f['style']}]: {np.asarray(got).tolist()} expected {want.tolist()}")
+        if fresh in (i, j):
+            stt.mark_nontrivial(case_hash(f))
+
     def check(self, case, stt):
         import funsor.interpretations as I
         from funsor.interpreter import reinterpret
@@ -229,6 +305,8 @@ class C05(Prop):
 
         if "history" in case:
             return self.check_history(case["history"], stt)
+        if "factory" in case:
+            return self.check_factory(case["factory"], stt)
         node, mode = case["ast"], case["mode"]
         free = set(typeof(node)[0])
         binders = binder_names(node)
